@@ -213,8 +213,10 @@ pub fn serr_class(e: &minicbor_serde::error::DecodeError) -> &'static str {
 
 /// Events for one random value of T: "rt" (serialise, deserialise back), "alt" (a re-framed encoding of the same item), "mut" (totality).
 pub fn exercise<T: SFull>(name: &str, rng: &mut StdRng, sink: &mut crate::gen::Sink, n: usize, want: &str) {
-    for _ in 0..n {
+    for i in 0..n {
+        crate::types::set_many(i + 1 == n && want != "mut");
         let v = T::gen(rng, 0);
+        crate::types::set_many(false);
         let val = v.to_abs();
         let enc = match crate::ops::guarded_res(|| ser(&v)) {
             Ok(b) => b,
@@ -260,8 +262,10 @@ pub trait Both: crate::types::Full + Serialize + for<'de> Deserialize<'de> {}
 impl<T: crate::types::Full + Serialize + for<'de> Deserialize<'de>> Both for T {}
 
 pub fn both_report<T: Both>(name: &str, rng: &mut StdRng, sink: &mut crate::gen::Sink, n: usize) {
-    for _ in 0..n {
+    for i in 0..n {
+        crate::types::set_many(i + 1 == n);
         let v = T::gen(rng, 0);
+        crate::types::set_many(false);
         let val = v.to_abs();
         let nb = match minicbor::to_vec(&v) { Ok(b) => b, Err(_) => continue };
         let sb = ser(&v).unwrap_or_default();
